@@ -25,6 +25,7 @@ type Config struct {
 	Workers       int
 	MaxPaths      int
 	WriteMonitor  bool // C20: report stores into pre-existing objects
+	SharedExplicit bool // C20: only globals and what vrt.Shared marks count as pre-existing (shared) state
 	StopOnFirst   bool
 	ArbWide       bool // vrt.Arbitrary: collections of up to 2 entries one level deeper
 }
@@ -108,6 +109,8 @@ type Path struct {
 	steps    int
 	depth    int
 	entered  bool
+	shareNames bool
+	released map[*Object]bool // objects handed back to a sync.Pool
 	initMode bool
 	res      PathResult
 	stats    *Stats
@@ -159,7 +162,63 @@ func (p *Path) noteRead(o *Object) {
 	if p.E.Cfg.WriteMonitor && p.entered && o.Pre {
 		p.reads[o] = true
 	}
+	if p.released != nil && p.released[o] {
+		p.writes = append(p.writes, fmt.Sprintf("use of %s after it was put back into a sync.Pool", objName(o)))
+	}
 }
+
+// checkReleased: a function result that aliases the storage of a buffer which
+// was already handed back to a sync.Pool (any other goroutine may own it now).
+func (p *Path) checkReleased(v Value, site ssa.Instruction) {
+	if p.released == nil {
+		return
+	}
+	if b, ok := v.(BytesV); ok && b.Alias != nil && p.released[b.Alias] {
+		p.writes = append(p.writes, fmt.Sprintf("a function returns bytes that alias %s after it was put back into a sync.Pool at %s", objName(b.Alias), p.posOf(site)))
+	}
+}
+
+// markShared marks everything reachable from v (not through closures, not
+// through harness-owned verif* values) as shared between concurrent requests.
+func (p *Path) markShared(v Value, seen map[*Object]bool) {
+	switch x := v.(type) {
+	case PtrV:
+		if x.Obj != nil && !seen[x.Obj] {
+			seen[x.Obj] = true
+			x.Obj.Pre = true
+			p.markShared(x.Obj.Val, seen)
+		}
+	case StructV:
+		for _, f := range x.F {
+			p.markShared(f, seen)
+		}
+	case ArrayV:
+		for _, e := range x.E {
+			p.markShared(e, seen)
+		}
+	case SliceV:
+		if x.Arr != nil && !seen[x.Arr] {
+			seen[x.Arr] = true
+			x.Arr.Pre = true
+			p.markShared(x.Arr.Val, seen)
+		}
+	case MapV:
+		if x.M != nil {
+			x.M.Pre = true
+			for _, e := range x.M.Entries {
+				p.markShared(e.V, seen)
+			}
+		}
+	case IfaceV:
+		if x.T != nil {
+			if n, ok := types.Unalias(derefType(x.T)).(*types.Named); ok && strings.HasPrefix(n.Obj().Name(), "verif") {
+				return
+			}
+		}
+		p.markShared(x.V, seen)
+	}
+}
+
 func (p *Path) noteMapRead(m *MapObj) {
 	if p.E.Cfg.WriteMonitor && p.entered && m.Pre {
 		p.mreads[m] = true
@@ -167,12 +226,26 @@ func (p *Path) noteMapRead(m *MapObj) {
 }
 
 func (p *Path) noteWrite(o *Object, site ssa.Instruction) {
+	if p.E.Cfg.WriteMonitor && p.entered && !p.initMode {
+		// one confinement obligation per executed store (the heap is concrete: decided here;
+		// whether the path that carries it is feasible is the solver's part)
+		p.res.Asserts++
+		if !o.Pre {
+			p.res.Proved++
+		}
+	}
 	if p.E.Cfg.WriteMonitor && p.entered && o.Pre && !p.initMode {
 		w := fmt.Sprintf("store to pre-existing object %s at %s", objName(o), p.posOf(site))
 		p.writes = append(p.writes, w)
 	}
 }
 func (p *Path) noteMapWrite(m *MapObj, site ssa.Instruction) {
+	if p.E.Cfg.WriteMonitor && p.entered && !p.initMode {
+		p.res.Asserts++
+		if !m.Pre {
+			p.res.Proved++
+		}
+	}
 	if p.E.Cfg.WriteMonitor && p.entered && m.Pre && !p.initMode {
 		p.writes = append(p.writes, fmt.Sprintf("write to pre-existing map #%d at %s", m.ID, p.posOf(site)))
 	}
